@@ -212,6 +212,7 @@ a violation of a listed statement was first given corpus until a check reported 
 | `map[NamedString]V` panics for struct / pointer / slice / map `V` | B, E, F | genuine (C14) | C11, C14 (`SeedNamedKeys`) | `d4bde33` |
 | registered unfolder for `T` corrupts `[]*T`, `map[string]*T` | B, E | genuine (C14: memory outside the target) | C13, C14 (custom unfolders behind pointer elements) | `5752255` |
 | nil value of an interface type containing `Fold` panics | A | genuine (C12: interfaces fold as null when nil) | C12, C09 (`SeedFolderIfc`) | `c1166a0` |
+| nil `*T` with a folder registered for `T` is handed to the user function (the README's `foldDuration` crashes) | A | genuine (C12: pointers fold as null when nil); C12 had reported it earlier and I had misjudged it (§6.1) | C12 (`SeedBuiltinFolders`, test folders written like the README's) | `d72f69a` |
 | `omitempty` ignores `IsZero` on custom array / string / slice / map types | A | genuine (C12 lists `IsZero()==true`; my model had mirrored the code) | C12 (`SeedZeroSized`) | `fa5101e` |
 | cborl / ubjson `Decoder` break on a `(0, nil)` read | C, D, E | genuine (C18: "whatever sizes its reads return"; I had assumed it away) | C18 (one zero-byte read per schedule) | `c92062c` |
 | json `Parser.Parse` keeps flags of a rejected text | C | genuine (C04: every valid text is accepted; `Parse` resets the parser) | C04 (`json-after-rejected`) | `2195d44` |
